@@ -12,7 +12,31 @@ for f in os.listdir(out):
     os.remove(os.path.join(out, f))
 log = subprocess.run(["git", "-C", "/repo", "log", "--reverse", "--format=%h %s"],
                      capture_output=True, text=True).stdout.splitlines()
+SCRATCH = "/tmp/regress_wt"
+
+
+def rebased(commit):
+    """The repair as a diff against today's HEAD: revert the commit in a scratch
+    worktree (3-way, so later edits of neighbouring lines do not matter) and
+    take the reverse of that change.  None if the revert conflicts."""
+    subprocess.run(["git", "-C", SCRATCH, "reset", "-q", "--hard", "HEAD"], check=True)
+    r = subprocess.run(["git", "-C", SCRATCH, "revert", "-n", commit], capture_output=True, text=True)
+    if r.returncode != 0:
+        subprocess.run(["git", "-C", SCRATCH, "revert", "--abort"], capture_output=True)
+        subprocess.run(["git", "-C", SCRATCH, "reset", "-q", "--hard", "HEAD"])
+        return None
+    tree = subprocess.run(["git", "-C", SCRATCH, "write-tree"], capture_output=True,
+                          text=True).stdout.strip()
+    d = subprocess.run(["git", "-C", SCRATCH, "diff", tree, "HEAD", "--", "dagrt"],
+                       capture_output=True, text=True).stdout
+    subprocess.run(["git", "-C", SCRATCH, "reset", "-q", "--hard", "HEAD"])
+    return d or None
+
+
+subprocess.run(["git", "-C", "/repo", "worktree", "remove", "--force", SCRATCH], capture_output=True)
+subprocess.run(["git", "-C", "/repo", "worktree", "add", "-q", "--detach", SCRATCH, "HEAD"], check=True)
 index = []
+rebased_flag = {}
 n = 0
 for line in log:
     h, _, subj = line.partition(" ")
@@ -27,10 +51,19 @@ for line in log:
     n += 1
     slug = re.sub(r"[^a-z0-9]+", "-", subj[5:].lower())[:50].strip("-")
     fn = f"{n:02d}_{slug}.diff"
-    diff = subprocess.run(["git", "-C", "/repo", "show", "--format=", h, "--", "dagrt"],
-                          capture_output=True, text=True).stdout
+    rb = rebased(h)
+    manual = os.path.join(ROOT, "verif", "selftest", "regress_manual", h + ".diff")
+    if rb is None and os.path.exists(manual):
+        rb = open(manual).read()       # rebased by hand onto later repairs
+    rebased_flag[h] = rb is not None
+    diff = rb or subprocess.run(
+        ["git", "-C", "/repo", "show", "--format=", h, "--", "dagrt"],
+        capture_output=True, text=True).stdout
     with open(os.path.join(out, fn), "w") as f:
         f.write(diff)
     index.append({"file": fn, "commit": h, "subject": subj, "properties": props})
+    if rebased_flag.get(h) is False:
+        print("  not rebased (revert conflicts), kept the original diff:", h, subj[:60])
+subprocess.run(["git", "-C", "/repo", "worktree", "remove", "--force", SCRATCH], capture_output=True)
 json.dump(index, open(os.path.join(out, "INDEX.json"), "w"), indent=1)
 print(len(index), "regress diffs")
